@@ -210,7 +210,7 @@ inline void run_seq(const SeqProg &p) {
 
 // ================================================================ (b) threads on vrt
 struct Party { uint8_t flavour; uint8_t count; uint8_t yields; };   // flavour 0 coroutine, 1 blocking
-struct MtProg { uint8_t limit; std::vector<Party> prod, cons; };
+struct MtProg { uint8_t limit; std::vector<Party> prod, cons; uint8_t unblocks = 0; };   // unblocks: unblock_pop(e) calls issued by another thread (unbounded queue)
 
 inline MtProg decode_mt(hz::Reader &r, bool bounded) {
     MtProg p;
@@ -221,6 +221,7 @@ inline MtProg decode_mt(hz::Reader &r, bool bounded) {
     // consumers share exactly the produced number of items
     for (unsigned i = 0; i < nc; i++) { Party x; x.flavour = (uint8_t)r.mod(2); x.count = 0; x.yields = (uint8_t)r.mod(3); p.cons.push_back(x); }
     for (unsigned k = 0; k < total; k++) p.cons[r.mod(nc)].count++;
+    if (!bounded && r.mod(3) == 0) p.unblocks = (uint8_t)(1 + r.mod(2));
     return p;
 }
 inline std::string describe_mt(const MtProg &p) {
@@ -228,6 +229,7 @@ inline std::string describe_mt(const MtProg &p) {
     if (p.limit) d << "limited_queue<int>(limit " << (unsigned)p.limit << "), threads:"; else d << "queue<int>, threads:";
     for (size_t i = 0; i < p.prod.size(); i++) d << " P" << (unsigned)i << "[" << (p.prod[i].flavour ? "blocking" : "coroutine") << " x" << (unsigned)p.prod[i].count << ", yield*" << (unsigned)p.prod[i].yields << "]";
     for (size_t i = 0; i < p.cons.size(); i++) d << " C" << (unsigned)i << "[" << (p.cons[i].flavour ? "pop().wait()" : "co_await pop()") << " x" << (unsigned)p.cons[i].count << ", yield*" << (unsigned)p.cons[i].yields << "]";
+    if (p.unblocks) d << " + another thread calls unblock_pop(e) x" << (unsigned)p.unblocks << " (a failed pop is retried)";
     return d.s;
 }
 
@@ -239,6 +241,8 @@ struct MtRun {
     std::vector<std::vector<int>> got;      // per consumer, in receive order
     struct PushRec { int v; int t_begin, t_end; };
     std::vector<std::vector<PushRec>> pushed;
+    std::vector<int> exc_seen;              // per consumer: pops that failed with the unblock exception
+    int unblock_true = 0;
 
     cocls::async<void> prod_coro(int i) {
         const Party &x = p->prod[(size_t)i];
@@ -266,8 +270,9 @@ struct MtRun {
         const Party &x = p->cons[(size_t)i];
         for (int k = 0; k < x.count; k++) {
             hz::upoints(x.yields);
-            int v = co_await q->pop();
-            got[(size_t)i].push_back(v);
+            bool ok = false; int v = 0;
+            try { v = co_await q->pop(); ok = true; } catch (const val::TestExc &) { exc_seen[(size_t)i]++; }
+            if (ok) got[(size_t)i].push_back(v); else k--;      // pop failed by unblock_pop: try again
         }
     }
     void cons_thread(int i) {
@@ -275,15 +280,17 @@ struct MtRun {
         if (x.flavour == 0) { cocls::future<void> f = cons_coro(i).start(); f.wait(); return; }
         for (int k = 0; k < x.count; k++) {
             hz::upoints(x.yields);
-            int v = q->pop().wait();
-            got[(size_t)i].push_back(v);
+            try { int v = q->pop().wait(); got[(size_t)i].push_back(v); } catch (const val::TestExc &) { exc_seen[(size_t)i]++; k--; }
         }
     }
     void run(const MtProg &prog) {
         p = &prog;
         if constexpr (BOUNDED) q.reset(new Q(prog.limit)); else q.reset(new Q());
-        got.resize(prog.cons.size()); pushed.resize(prog.prod.size());
+        got.resize(prog.cons.size()); pushed.resize(prog.prod.size()); exc_seen.assign(prog.cons.size(), 0);
         std::vector<std::thread> th;
+        if constexpr (!BOUNDED) if (prog.unblocks) th.emplace_back([this, &prog] {
+            for (unsigned k = 0; k < prog.unblocks; k++) { hz::upoints(1 + k); bool r = q->unblock_pop(std::make_exception_ptr(val::TestExc(9))); if (r) unblock_true++; }
+        });
         for (size_t i = 0; i < prog.cons.size(); i++) th.emplace_back([this, i] { cons_thread((int)i); });
         for (size_t i = 0; i < prog.prod.size(); i++) th.emplace_back([this, i] { prod_thread((int)i); });
         for (auto &t : th) t.join();
@@ -310,6 +317,8 @@ struct MtRun {
             for (auto &va : pushed) for (auto &a : va) for (auto &vb : pushed) for (auto &b : vb)
                 if (a.t_end < b.t_begin) HZ_CHECK(pos[a.v] < pos[b.v], "single consumer received %d (pushed t=%d..%d) after %d (pushed t=%d..%d)", a.v, a.t_begin, a.t_end, b.v, b.t_begin, b.t_end);
         }
+        int exc_total = 0; for (int e : exc_seen) exc_total += e;
+        HZ_CHECK(exc_total == unblock_true, "unblock_pop reported success %d times but %d pops failed with its exception (exactly the oldest waiting pop must fail)", unblock_true, exc_total);
         HZ_CHECK(q->empty() && q->size() == 0, "queue not empty after every item was consumed (size %zu)", q->size());
         q.reset();
     }
